@@ -570,7 +570,7 @@ Fixpoint parse_vardecls (fuel : nat) (ts : list token) (bad : nat) : pres (list 
 (* program: varsDeclaration? statement* EOF. Result: the tree and the number of number literals
    that do not fit in an int (each is reported as an error by Parse) *)
 Definition parse_tokens (ts : list token) : option (program * nat) :=
-  let fuel := S (S (List.length ts)) in
+  let fuel := (2 * List.length ts + 6)%nat in   (* more than any derivation needs: Proofs/ParserComplete.v *)
   match ts with
   | v :: lb :: ts1 =>
       if tk_is TVars v then
